@@ -227,6 +227,10 @@ def e2e_ops(ctx):
     rinit = ["d:r/lib/basictl", "f:r/other.txt:6f", "f:r/lib/mine.go:6d"]
     scenario("e2e:go-basictl-rel", "r/gen", "meta/meta.go", rinit,
              [("g", "relA", rA, rinit), ("g", "relB", rB, rinit), ("g", "relB", rB, rinit)])
+    # a stale FILE where many generated files need a directory: every worker of OutDir.Write dies on its first
+    # error while the producer still has items to send (finding: the process crashes instead of reporting the error)
+    scenario("e2e:go-stale-file-blocks-dir", "p/gen", "meta/meta.go", base,
+             [("g", "goB", gB, ["d:p"]), ("m", ["x:p/gen/internal", "f:p/gen/internal:78"]), ("g", "goB", gB, ["d:p"])])
     scenario("e2e:go-basictl-missing", "r/gen", "meta/meta.go", ["d:r", "f:r/other.txt:6f"],
              [("g", "relA", rA, rinit)])
     pA, pB = cmd(tl2gen, php, A), cmd(tl2gen, php, B)
@@ -313,7 +317,8 @@ def oracle(ctx, ops, go_out):
                 stats["stale_removed"] += sum(1 for p in bf if ol.under(data["out"], p) and p not in af)
             prev = after
         for cat, text in complaints[:3]:
-            bad.append((op, kind, text + "  [impl: " + trunc(out, 300) + "]", f"C16:{data['variant'].split(':')[0]}:{cat}"))
+            vname = data["variant"] if kind == "e2e" else data["variant"].split(":")[0]
+            bad.append((op, kind, text + "  [impl: " + trunc(out, 300) + "]", f"C16:{vname}:{cat}"))
     ctx.notes["oracle_stats"] = stats
     return bad
 
